@@ -162,6 +162,9 @@ def do_prec(args):
             crt["directory"] = os.path.join(d, "cdir")
     else:
         cv, evv, gv = PREC_VALUES[s]
+        if s != "file_name_format":
+            # a zero duration is a value like any other: "0s" at one level in three points out of four
+            cv, evv, gv = [("1d", "2d", "3d"), ("0s", "2d", "3d"), ("1d", "0s", "3d"), ("1d", "2d", "0s")][idx % 4]
         if pr["cert"]:
             crt[s] = cv
         if pr["endpoint"]:
@@ -184,7 +187,12 @@ def do_prec(args):
             ev["observed"] = {"c": "cert", "e": "endpoint", "g": "global"}.get(c["file_name_format"][0], "default")
         else:
             v = c[s + "_s"]
-            ev["observed"] = {86400: "cert", 2 * 86400: "endpoint", 3 * 86400: "global"}.get(v, "default")
+            secs = {"0s": 0, "1d": 86400, "2d": 2 * 86400, "3d": 3 * 86400}
+            given = {}
+            for level, val in (("global", gv), ("endpoint", evv), ("cert", cv)):      # the most specific level last: it names an ambiguous value
+                if pr[level]:
+                    given[secs[val]] = level
+            ev["observed"] = given.get(v, "default")
     shutil.rmtree(d, ignore_errors=True)
     return idx, ev
 
